@@ -14,11 +14,11 @@ import (
 
 func init() {
 	register(&Prop{
-		ID: "C12",
-		Decided: "(1) the operator alternation of the shortcut regexes equals the case sets of compareNum and compareStr, and every case denotes its relation under all orderings (NaN unordered); (2) fallback discipline: the shortcut answers (ok=true) only after a successful type test matching the literal's kind, a missing or NULL field yields ok=false, a compound falls back as a whole when any part does; (3) no lossy coercion: every conversion of a 64-bit (or platform-width) integer to float64 on the shortcut path is reachable only within +-2^53, and a numeric literal is accepted only within +-2^53 (the general engine compares integer kinds as integers); (4) a failing evaluation rejects the row: the bool assertion on the VM result is reached only when err==nil, the error arm returns false, the program is compiled AsBool; (5) every predicate kind of the property (WHERE, HAVING, OVER-WHEN, TRIGGER-WHEN) is compiled by condition.NewExprCondition.",
-		NotDecided: "equality of decisions for all values beyond the coercion clause (expr-lang's own semantics for mixed kinds and strings), parenthesised equivalents, NaN/Inf beyond the comparison tables.",
+		ID:          "C12",
+		Decided:     "(1) the operator alternation of the shortcut regexes equals the case sets of compareNum and compareStr, and every case denotes its relation under all orderings (NaN unordered); (2) fallback discipline: the shortcut answers (ok=true) only after a successful type test matching the literal's kind, a missing or NULL field yields ok=false, a compound falls back as a whole when any part does; (3) no lossy coercion: every conversion of a 64-bit (or platform-width) integer to float64 on the shortcut path is reachable only within +-2^53, and a numeric literal is accepted only within +-2^53 (the general engine compares integer kinds as integers); (4) a failing evaluation rejects the row: the bool assertion on the VM result is reached only when err==nil, the error arm returns false, the program is compiled AsBool; (5) every predicate kind of the property (WHERE, HAVING, OVER-WHEN, TRIGGER-WHEN) is compiled by condition.NewExprCondition.",
+		NotDecided:  "equality of decisions for all values beyond the coercion clause (expr-lang's own semantics for mixed kinds and strings), parenthesised equivalents, NaN/Inf beyond the comparison tables.",
 		Assumptions: []string{"expr-lang v1.17.8 compares two integer-kind operands as integers (runtime.Less/Equal: int(x) < int(y)) and an integer with a float as float64 — read in the module cache"},
-		Run: runC12,
+		Run:         runC12,
 	})
 }
 
@@ -246,7 +246,9 @@ func (a *A) ruleFastFallback() {
 				continue
 			}
 			n++
-			strGuard := guardedByValue(b, func(v ssa.Value) bool { return isFieldOf(TermOf(v, nil), "condition.fastCompare", "isString") && fieldVarOf(derefLoad(v)) == isStr }, true) &&
+			strGuard := guardedByValue(b, func(v ssa.Value) bool {
+				return isFieldOf(TermOf(v, nil), "condition.fastCompare", "isString") && fieldVarOf(derefLoad(v)) == isStr
+			}, true) &&
 				guardedByValue(b, func(v ssa.Value) bool {
 					ex, ok := v.(*ssa.Extract)
 					if !ok || ex.Index != 1 {
